@@ -174,7 +174,8 @@ func RunParent(p *Prop, tier string) int {
 		}
 	}
 	outcomes := map[uint64]struct{}{}
-	for _, r := range results {
+	shardOf := map[string]int{} // which worker reported a violation (for the shard re-run fallback)
+	for wi, r := range results {
 		if r.Error != "" {
 			fmt.Fprintf(os.Stderr, "HARNESS-ERROR property=%s %s\n", p.ID, r.Error)
 			return 2
@@ -192,6 +193,9 @@ func RunParent(p *Prop, tier string) int {
 			outcomes[h] = struct{}{}
 		}
 		agg.OutcomesCap = agg.OutcomesCap || r.OutcomesCap
+		for _, v := range r.Violations {
+			shardOf[v.Signature+"\x00"+v.Scope+"\x00"+fmt.Sprint(v.Index)] = wi
+		}
 		agg.Violations = append(agg.Violations, r.Violations...)
 		for _, s := range r.Samples {
 			if len(agg.Samples) < 6 {
@@ -276,6 +280,36 @@ func RunParent(p *Prop, tier string) int {
 			if isCrash {
 				if ee, isExit := err2.(*exec.ExitError); isExit && (ee.ExitCode() > 2 || ee.ExitCode() < 0 || strings.Contains(string(out), "fatal error:")) || strings.Contains(string(out), "REPRODUCED signature=") {
 					ok = true
+				}
+			}
+			if !ok && !isCrash && strings.Contains(string(out), "replay: case ") && strings.Contains(string(out), " not found") {
+				// the artefact cannot address the case (a gap in the driver's replay addressing, not a
+				// property of the code under test): fall back to re-running the worker shard that
+				// reported it, twice; enumeration is deterministic, so a real violation shows up again
+				wi, have := shardOf[v.Signature+"\x00"+v.Scope+"\x00"+fmt.Sprint(v.Index)]
+				again := 0
+				for k := 0; have && k < 2; k++ {
+					out2 := filepath.Join(runDir, fmt.Sprintf("rerun-w%d-%d.json", wi, k))
+					cmd := exec.Command(self, "-worker", "-prop", p.ID, "-tier", tier, "-shard", strconv.Itoa(wi),
+						"-of", strconv.Itoa(nw), "-seed", strconv.FormatInt(seed, 10), "-out", out2)
+					cmd.Env = append(os.Environ(), procs, "GOMEMLIMIT=3GiB", "TMPDIR="+runDir)
+					cmd.Run()
+					if b, err := os.ReadFile(out2); err == nil {
+						r2 := &Result{}
+						if json.Unmarshal(b, r2) == nil {
+							for _, x := range r2.Violations {
+								if x.Scope == v.Scope && x.Index == v.Index && sigCore(x.Signature) == sigCore(v.Signature) {
+									again++
+									break
+								}
+							}
+						}
+					}
+				}
+				if again == 2 {
+					fmt.Printf("NOTE: the replay artefact cannot address case %s #%d; confirmed instead by re-running worker shard %d twice (same violation both times)\n", v.Scope, v.Index, wi)
+					repro, tries = limit, limit
+					break
 				}
 			}
 			if ok {
